@@ -23,7 +23,7 @@ func C19(c *core.Ctx) {
 		sizes = []int{0, 1, 2, 3, 7, 64, 1000, 20000}
 	}
 	classes := []string{"random", "boundary", "progression", "equalhalves", "dense"}
-	rounds := c.Pick(2, 12)
+	rounds := c.Pick(2, 24)
 	for round := 0; round < rounds; round++ {
 		for _, fp := range fps {
 			for _, n := range sizes {
@@ -66,7 +66,7 @@ func C19(c *core.Ctx) {
 	dir := c.WorkDir()
 	defer os.RemoveAll(dir)
 	var id uint64
-	for i := 0; i < c.Pick(60, 600); i++ {
+	for i := 0; i < c.Pick(60, 1500); i++ {
 		cfg := tblCfg{BlockSize: 4096, Bloom: fps[r.Intn(len(fps))], InMem: i%2 == 0}
 		ents := genEntries(r, 1+r.Intn(300), 12, 20, false)
 		id++
